@@ -1,4 +1,5 @@
 import Cell2v.Lemmas.NodeCtrl
+import Cell2v.Lemmas.NodeCtrlSpec
 /-!
 C12 — property theorems: node retirement (nodectrl).
 
@@ -78,21 +79,6 @@ theorem retire_guard (kinds : List Kind) (ops : List Op) (c : Cmd) (hc : c = .re
 
 /-! ## retired -/
 
-/-- the immediate answers to the probe are support answers, never notifications -/
-theorem svcRetired_mem_history (kinds : List Kind) (ops : List Op) (i : Nat) :
-    Op.svcRetired i ∈ history kinds ops ↔ Op.svcRetired i ∈ ops := by
-  have aux : ∀ (l : List Kind) (off : Nat), Op.svcRetired i ∉ autoAcks off l := by
-    intro l
-    induction l with
-    | nil => intro off; simp [autoAcks]
-    | cons k rest ih => intro off; cases k <;> simp [autoAcks, ih]
-  simp [history, aux]
-
-theorem exec_snoc (f : Bool) (kinds : List Kind) (ops : List Op) (o : Op) :
-    exec f kinds (ops ++ [o]) =
-      ((step f (exec f kinds ops).1 o).1, (exec f kinds ops).2 ++ (step f (exec f kinds ops).1 o).2) := by
-  simp [exec, history, ← List.append_assoc, run_append, run]
-
 /-- **retired_iff_all_reported**: a node that hosts at least one service is in state
 retired (or beyond) exactly when every hosted service has reported `retired` — it never
 gets there earlier, and it gets there as soon as the last report arrives. -/
@@ -127,7 +113,9 @@ theorem retired_only_after_all_reported (kinds : List Kind) (ops : List Op) (o :
       exact ⟨_, h, rfl⟩
     rcases step_pubs (exec true kinds ops).1 o with ⟨hp, _⟩ | hp
     · rw [hp] at hmem; simp at hmem
-    · rw [hp] at hmem; simp [NS.rank] at hmem; omega
+    · rw [hp] at hmem
+      have := List.mem_singleton.mp hmem
+      rw [← this]; simp [NS.rank]
   intro i hi
   have := inv.st_ret hrank i (by rw [hk]; exact hi)
   exact (svcRetired_mem_history kinds (ops ++ [o]) i).mp ((inv.ret_hist i).mp this).2
@@ -175,8 +163,8 @@ theorem stop_count_is_state (kinds : List Kind) (ops : List Op) :
     stops (exec true kinds ops).2 ≤ (if 4 ≤ (exec true kinds ops).1.st.rank then 1 else 0) := by
   have h := run_stops (start kinds) (history kinds ops)
   simp only [exec, stops_append, stops_tellAll]
-  unfold stopBudget at h
-  omega
+  by_cases hr : 4 ≤ (run true (start kinds) (history kinds ops)).1.st.rank <;>
+    simp [stopBudget, hr] at h ⊢ <;> omega
 
 /-- **stop_exactly_once_after_exit**: once an `exit` has been accepted, whatever happens
 afterwards (late notifications, repeated commands, completions), `StopNode` has been
@@ -227,6 +215,30 @@ theorem non_ok_answer_grants_nothing (f : Bool) (s : St) (i : Nat) :
 /-- `web_retire` behaves exactly like `retire`, `web_exit` exactly like `exit` -/
 theorem web_retire_same (f : Bool) (s : St) : step f s (.cmd .webRetire) = step f s (.cmd .retire) := rfl
 theorem web_exit_same (f : Bool) (s : St) : step f s (.cmd .webExit) = step f s (.cmd .exit) := rfl
+
+/-! ## the executable property monitor accepts the model -/
+
+open Cell2v.Spec.C12 in
+/-- **model_passes_monitor**: the monitor `Spec/C12` — the very predicate that `modeld_c12 spec`
+evaluates on the observations recorded from the Go code, with its seventeen clauses
+(state regression, retire/exit guards, support, fan-out, retired iff all reported,
+StopNode at most once and only on exit, exited only after a successful stop, refused
+commands change nothing, …) — never flags the observable trace of the model, for every
+service set and every history. -/
+theorem model_passes_monitor (kinds : List Kind) (ops : List Op) :
+    monitorCase kinds (obsOf (boot true kinds).1 (boot true kinds).2) (traceOf (boot true kinds).1 ops) = none := by
+  obtain ⟨h1, h2⟩ := reset_ok kinds
+  simp only [monitorCase, h1]
+  exact runAll_none ops (RInv.exec kinds []) h2
+
+open Cell2v.Spec.C12 in
+/-- the monitor is not vacuous: it flags the D3 history on the code before the repair
+(the model `step false`), with the signature recorded in known_findings.json -/
+theorem monitor_flags_d3 :
+    let s := (exec false [.raw] [.qack 0 true, .cmd .retire, .svcRetired 0, .cmd .exit]).1
+    let m : Mon := { n := 1, declared := [0], reported := [0], cur := .exiting, stopsTotal := 1, stopOk := false }
+    (m.step (.svcRetired 0) (obsOf (step false s (.svcRetired 0)).1 (step false s (.svcRetired 0)).2)).2
+      = some "C12/state-regression" := by decide
 
 /-! ## non-vacuity: the hypotheses above are met by real histories -/
 
